@@ -15,7 +15,7 @@ SPAN_ENS = ['degree <= result', 'result <= num_ctrlpts - 1', 'knot_vector[result
 
 CONTRACTS = {
     'helpers.find_span_linear': dict(
-        props=['C01', 'C03', 'C04', 'C17', 'C18'],
+        props=['C01', 'C02', 'C03', 'C04', 'C17', 'C18'],
         args=OD([('degree', 'int'), ('knot_vector', ('list', 'real')), ('num_ctrlpts', 'int'), ('knot', 'real'),
                  ('kwargs', 'kwargs')]),
         returns='int',
@@ -25,7 +25,7 @@ CONTRACTS = {
                        decreases='num_ctrlpts - span')},
     ),
     'helpers.find_span_binsearch': dict(
-        props=['C01', 'C03', 'C17'],
+        props=['C01', 'C02', 'C03', 'C17'],
         args=OD([('degree', 'int'), ('knot_vector', ('list', 'real')), ('num_ctrlpts', 'int'), ('knot', 'real'),
                  ('kwargs', 'kwargs')]),
         returns='int',
